@@ -87,7 +87,7 @@ func TestC02(t *testing.T) {
 		return
 	}
 
-	perType := vf.N(400, 500000)
+	perType := vf.N(1200, 500000)
 	for typ := uint8(1); typ <= 15; typ++ {
 		typ := typ
 		n := perType
